@@ -7,7 +7,7 @@ C05_ring_DEPS    := $(CSGSO) $(TOOLSSO)
 
 HARNESSES += C05_tools
 C05_tools_FLAGS :=
-C05_tools_LIBS  :=
+C05_tools_LIBS  := -L/usr/lib/x86_64-linux-gnu/hdf5/serial -lhdf5
 
 # free-running ThreadSanitizer pass (thorough tier): linked against the TSan build of the libraries
 HARNESSES += C05_race
